@@ -1,6 +1,6 @@
 """C20 configuration for ./check (see checks/propcfg.py for the keys)."""
 CFG = {
-    "modules": ["VaxisModel.Props.C20"],
+    "modules": ["VaxisModel.Props.C20", "VaxisModel.Witness.F51", "VaxisModel.Witness.F52"],
     "extractors": ["C20"],
     "drivers": ["C20"],
     "stateful": True,
